@@ -57,6 +57,9 @@ func c11Compare(what string, fp int, ferr error, p int) error {
 // (buffer nil / fresh / used). Where the reference says the first value is well-formed
 // within the depth limit, the common offset is also the reference's.
 func CheckC11(c *core.Case) error {
+	if c.Kind == "cold" {
+		return checkCold(c)
+	}
 	in := inputOf(c)
 	p, err := rjson.SkipValue(in, nil)
 	if err != nil {
